@@ -183,7 +183,7 @@ func (r *replayer) getValues(terms []string) map[string]*sx {
 		if sp.name == "cvc5" {
 			continue
 		}
-		res := runSolver(sp, f, 20, 0)
+		res := runSolver(sp, f, 10, 0)
 		if res.status != "sat" {
 			continue
 		}
@@ -363,6 +363,10 @@ func replayObligation(o *checkOpts, ob *Obligation) map[string]any {
 	}
 	if ob.Status != "failed" || ob.Output != "sat" || ob.vc == nil || ob.vc.eng == nil {
 		rp["replay_note"] = "the solver returned no model (" + ob.Status + "): the obligation is undischarged; no input to replay"
+		return rp
+	}
+	if ob.Kind != "nopanic" && ob.Kind != "lemma" && ob.Kind != "post" {
+		rp["replay_note"] = "obligations of kind " + ob.Kind + " have no native oracle: the countermodel is in solver_output terms only"
 		return rp
 	}
 	eng := ob.vc.eng
